@@ -230,6 +230,8 @@ def ds9_file(draw, max_stmts):
                               ['1,2,3,4', '10,20,5,30', '1 2 3'])),
                           'props': draw(st.sampled_from(['', 'color=red',
                                                          'vector=1'])),
+                          # parentheses and commas are optional here too
+                          'bare': draw(st.sampled_from([False, False, True])),
                           'term': draw(st.sampled_from(['\n', ';']))})
         elif kind == 'comment':
             stmts.append({'k': 'comment', 'text': draw(st.sampled_from(
